@@ -1567,7 +1567,7 @@ impl Element {
                     AttrPrefixKind::Style(prefix_location) => match &mut element {
                         ElementKind::Normal { .. } => {
                             if let AttrPrefixParseResult::Value(value) = attr_value {
-                                if class_attrs
+                                if style_attrs
                                     .iter()
                                     .find(|(_, x, _)| x.name_eq(&attr_name))
                                     .is_some()
